@@ -6,8 +6,8 @@ From PV Require Import UidRecent.Model UidRecent.Check.
 
 Local Open Scope N_scope.
 
-Definition ch0 : choice := mkChoice None false.
-Definition chp (t : N) : choice := mkChoice (Some t) false.
+Definition ch0 : choice := mkChoice None.
+Definition chp (t : N) : choice := mkChoice (Some t).
 
 (* connection 1 EXAMINEs INBOX and APPENDs to it (the \Recent it asks for is
    dropped); connection 2 then SELECTs INBOX read-write *)
